@@ -517,15 +517,15 @@ func (r *run) step(f *frame) (bool, error) {
 			m.undo(mark)
 			return !ok, nil
 		case "==/2":
-			if compareHasVarPair(a[0], a[1]) {
+			if m.compareHasVarPair(a[0], a[1]) {
 				return false, nil // distinct variables are never identical
 			}
-			return compare(a[0], a[1]) == 0, nil
+			return m.compare(a[0], a[1]) == 0, nil
 		case "\\==/2":
-			if compareHasVarPair(a[0], a[1]) {
+			if m.compareHasVarPair(a[0], a[1]) {
 				return true, nil
 			}
-			return compare(a[0], a[1]) != 0, nil
+			return m.compare(a[0], a[1]) != 0, nil
 		case "var/1":
 			_, ok := deref(a[0]).(*Var)
 			return ok, nil
@@ -691,6 +691,7 @@ func (r *run) step(f *frame) (bool, error) {
 type catchHandle struct{ rec *catchRec }
 
 func (m *Machine) eval(t Term) (Int, error) {
+	m.tick()
 	switch x := deref(t).(type) {
 	case Int:
 		return x, nil
@@ -1055,15 +1056,15 @@ func (r *run) bagof(set bool, tmpl, goal, inst Term, f *frame) (bool, error) {
 			if set {
 				for i := range ts {
 					for j := i + 1; j < len(ts); j++ {
-						if compareHasVarPair(ts[i], ts[j]) {
+						if m.compareHasVarPair(ts[i], ts[j]) {
 							m.VarOrder = true // the order of two distinct variables decides: implementation dependent
 						}
 					}
 				}
-				sortTerms(ts)
+				m.sortTerms(ts)
 				var ded []Term
 				for _, t := range ts {
-					if len(ded) == 0 || compare(ded[len(ded)-1], t) != 0 {
+					if len(ded) == 0 || m.compare(ded[len(ded)-1], t) != 0 {
 						ded = append(ded, t)
 					}
 				}
